@@ -14,6 +14,10 @@ it on purpose.  The argument here is structural instead (labels, see `Lab`):
   * every store / setter / mutator in the clone functions has a CLONE or freshly constructed receiver.
 Assumption recorded in the evidence: ids are unique among the selected tasks (C05), so SRCMAP[t.id] is t.
 
+F39 (outside link ends by identity): clause 'outside-identity' (CloneAnalysis._outside_identity, not part of PROVENANCE_ALL - only
+C10 asks for it) + _identity_element / _keep_formula in the relation rebuild; 'externals' gets one site per dependency relation
+that hands outside tasks over as themselves, so the site counts of the registration form and of the identity form are equal.
+
 Round 3 additions: guarded store `if k not in map: map[k] = v` == setdefault (CloneAnalysis._absent_guard); accumulate loops
 as comprehensions (Labeller.expand_acc / _block_accumulator); "merged" mode when wbs.WBS.__clone_tasks does not exist and
 __clone creates the clone map itself (_map_local); read-only aliases of the map (Labeller.map_aliases); guards of relation
@@ -216,8 +220,48 @@ class Labeller:
         mentions = [y for y in ast.walk(self.f.node) if isinstance(y, ast.Name) and y.id == name]
         inside = [y for y in ast.walk(loop) if isinstance(y, ast.Name) and y.id == name]
         after = [y for x in block[i_use:] for y in ast.walk(x) if isinstance(y, ast.Name) and y.id == name]
-        if len(inside) != 1 or len(mentions) != 1 + len(inside) + len(after) or any(not isinstance(y.ctx, ast.Load) for y in after):
+        if len(mentions) != 1 + len(inside) + len(after) or any(not isinstance(y.ctx, ast.Load) for y in after):
             return None
+        if len(inside) > 1:
+            # for v in X:  if A: name.append(E1)  elif B: name.append(E2) [...]   ->   [E1 if A else E2 for v in X if A or B]
+            import copy as _copy
+            body = [b for b in loop.body if not (isinstance(b, ast.Expr) and isinstance(b.value, ast.Constant))]
+            if len(body) != 1 or not isinstance(body[0], ast.If):
+                return None
+            branches, node, tail = [], body[0], None
+            while True:
+                bb = [b for b in node.body if not (isinstance(b, ast.Expr) and isinstance(b.value, ast.Constant))]
+                if len(bb) != 1 or not (isinstance(bb[0], ast.Expr) and isinstance(bb[0].value, ast.Call) and
+                                        match(f"{name}.append($e)", bb[0].value)):
+                    return None
+                branches.append((node.test, bb[0].value.args[0]))
+                if len(node.orelse) == 1 and isinstance(node.orelse[0], ast.If):
+                    node = node.orelse[0]
+                    continue
+                if node.orelse:
+                    oe = [b for b in node.orelse if not (isinstance(b, ast.Expr) and isinstance(b.value, ast.Constant))]
+                    if len(oe) != 1 or not (isinstance(oe[0], ast.Expr) and isinstance(oe[0].value, ast.Call) and
+                                            match(f"{name}.append($e)", oe[0].value)):
+                        return None
+                    tail = oe[0].value.args[0]
+                break
+            if len(inside) != len(branches) + (1 if tail is not None else 0) or len(branches) < 2 and tail is None:
+                return None
+            used = {y.id for t_, e_ in branches for z in (t_, e_) for y in ast.walk(z) if isinstance(y, ast.Name)}
+            body_defs = {d.var for d in self.flow.defs if d.node is not None and d.stmt is not loop and
+                         any(x is d.stmt for x in ast.walk(loop)) and d.var != loop.target.id}
+            if body_defs & used:
+                return None
+            alts = branches if tail is not None else branches[:-1]
+            elt = _copy.deepcopy(tail if tail is not None else branches[-1][1])
+            for t_, e_ in reversed(alts):
+                elt = ast.IfExp(test=_copy.deepcopy(t_), body=_copy.deepcopy(e_), orelse=elt)
+            ifs = [] if tail is not None else [ast.BoolOp(op=ast.Or(), values=[_copy.deepcopy(t_) for t_, _ in branches])]
+            comp = ast.ListComp(elt=elt, generators=[ast.comprehension(target=_copy.deepcopy(loop.target), iter=_copy.deepcopy(loop.iter),
+                                                                      ifs=ifs, is_async=0)])
+            ast.copy_location(comp, init)
+            ast.fix_missing_locations(comp)
+            return comp
         for x in block[i_use:]:
             for y in ast.walk(x):
                 if isinstance(y, ast.Call) and isinstance(y.func, ast.Attribute) and isinstance(y.func.value, ast.Name) and \
@@ -807,6 +851,16 @@ def _direct_copy_loops(ctx, f: Func) -> List[CopyLoop]:
         ds = _dict_source(it_x)
         helper_atoms = []
         pair_value = None
+        if ds is None and isinstance(fo.target, ast.Name):
+            # for name in [k for k in X.__dict__[.keys()] if C(k)]: the filters of the name list are filters of the loop
+            nc, _ = strip_seq_wrappers(it_x)
+            if isinstance(nc, (ast.ListComp, ast.GeneratorExp)) and len(nc.generators) == 1 and isinstance(nc.generators[0].target, ast.Name) \
+                    and isinstance(nc.elt, ast.Name) and nc.elt.id == nc.generators[0].target.id:
+                ids_ = _dict_source(nc.generators[0].iter)
+                if ids_ is not None and ids_[1] == 'keys':
+                    ds = ids_
+                    for c_ in nc.generators[0].ifs:
+                        helper_atoms += [(_rename(a_, nc.elt.id, fo.target.id), p_) for a_, p_ in facts.split_conj(c_, True)]
         if ds is None:
             pr = _pairs_source(it_x, fo.target)
             if pr is not None:
